@@ -296,6 +296,8 @@ pub struct RdHandles {
     pub word_bits: usize,
     /// number of whole words the backend holds
     pub n_words: usize,
+    /// word at which the backend was positioned when the reader was built over it
+    pub start_words: usize,
 }
 
 fn mk_rd_backend<W: SimWord>(spec: &RdBackend, bytes: &[u8]) -> (AnyWordRead<W>, RdHandles) {
@@ -303,18 +305,27 @@ fn mk_rd_backend<W: SimWord>(spec: &RdBackend, bytes: &[u8]) -> (AnyWordRead<W>,
     let n_words = words.len();
     let mut disk = None;
     let mut faulty_fired = None;
+    let mut start_words = 0usize;
     let inner = match spec {
         RdBackend::MemInf => RdInner::MemInf(MemWordReader::new(words)),
         RdBackend::MemStrict => RdInner::MemStrict(MemWordReader::new_strict(words)),
         RdBackend::VecBack => RdInner::VecBack(MemWordWriterVec::new(words)),
         RdBackend::SliceBack => RdInner::SliceBack(MemWordWriterSlice::new(words)),
         RdBackend::Adapter { plan } => {
-            let d = SimDisk::new(words_to_bytes(&words), plan);
+            let mut bytes = words_to_bytes(&words);
+            bytes.extend(std::iter::repeat(0xFFu8).take(plan.trailing.min(W::NBYTES.saturating_sub(1))));
+            let mut d = SimDisk::new(bytes, plan);
+            start_words = plan.start_words.min(n_words);
+            d.pre_position((start_words * W::NBYTES) as u64);
             disk = Some(d.handle());
             RdInner::Adapter(WordAdapter::new(d))
         }
         RdBackend::BufAdapter { cap, plan } => {
-            let d = SimDisk::new(words_to_bytes(&words), plan);
+            let mut bytes = words_to_bytes(&words);
+            bytes.extend(std::iter::repeat(0xFFu8).take(plan.trailing.min(W::NBYTES.saturating_sub(1))));
+            let mut d = SimDisk::new(bytes, plan);
+            start_words = plan.start_words.min(n_words);
+            d.pre_position((start_words * W::NBYTES) as u64);
             disk = Some(d.handle());
             RdInner::BufAdapter(WordAdapter::new(BufReader::with_capacity((*cap).max(1), d)))
         }
@@ -356,13 +367,15 @@ fn mk_rd_backend<W: SimWord>(spec: &RdBackend, bytes: &[u8]) -> (AnyWordRead<W>,
             })
         }
     };
-    let b = AnyWordRead::new(inner);
+    let mut b = AnyWordRead::new(inner);
+    b.cursor = start_words as u64;
     let h = RdHandles {
         stats: b.stats.clone(),
         disk,
         faulty_fired,
         word_bits: W::NBITS,
         n_words,
+        start_words,
     };
     (b, h)
 }
